@@ -43,22 +43,56 @@ Proof.
   rewrite (index_of_subst x y n _ Hyl Hn). destruct (index_of n (p_locals p)) eqn:E; [reflexivity|].
   pose proof (index_none_neq _ _ _ E Hx) as Hnx. unfold sigma. now rewrite (proj2 (Nat.eqb_neq n x) Hnx).
 Qed.
-(* one POU seen after global x was renamed *)
-Lemma global_rename_pou g p x y : mem y g = false -> mem y (p_locals p) = false -> mem y (p_uses p) = false ->
+Lemma mem_in n l : mem n l = true -> In n l.
+Proof.
+  induction l as [|a l IH]; unfold mem; cbn; [discriminate|]. destruct (Nat.eqb n a) eqn:E; [apply Nat.eqb_eq in E; auto|].
+  intros H. right. apply IH. unfold mem. destruct (index_of n l); [reflexivity|discriminate].
+Qed.
+Lemma in_mem n l : In n l -> mem n l = true.
+Proof.
+  induction l as [|a l IH]; [intros []|]. unfold mem in *. cbn. intros [->|H]; [now rewrite Nat.eqb_refl|].
+  destruct (Nat.eqb n a); [reflexivity|]. specialize (IH H). destruct (index_of n l); [reflexivity|discriminate].
+Qed.
+Lemma subst_id x y l : mem x l = false -> subst x y l = l.
+Proof.
+  intros H. unfold subst. rewrite <- (map_id l) at 2. apply map_ext_in. intros n Hin.
+  pose proof (mem_false_not_in _ _ H n Hin) as Hn. now rewrite (proj2 (Nat.eqb_neq n x) Hn).
+Qed.
+(* one POU seen after global x was renamed to y (y is not a project-level name; if the POU uses x as a global it has no local y;
+   every use of the POU denotes something) *)
+Lemma global_rename_pou g p x y : mem y g = false ->
+  (uses_global p x && mem y (p_locals p) = false) ->
+  (forall n, In n (p_uses p) -> mem n (p_locals p) = true \/ mem n g = true) ->
   map (resolve (subst x y g) (if mem x (p_locals p) then p else {| p_locals := p_locals p; p_uses := subst x y (p_uses p) |}))
       (p_uses (if mem x (p_locals p) then p else {| p_locals := p_locals p; p_uses := subst x y (p_uses p) |}))
   = map (resolve g p) (p_uses p).
 Proof.
-  intros Hyg Hyl Hyu. destruct (mem x (p_locals p)) eqn:Hx.
-  - apply map_ext_in. intros n Hin. pose proof (mem_false_not_in _ _ Hyu n Hin) as Hn. unfold resolve.
+  intros Hyg Hc Hb.
+  (* a use spelled y is bound locally *)
+  assert (Hyloc : forall n, In n (p_uses p) -> n = y -> index_of n (p_locals p) <> None).
+  { intros n Hin ->. destruct (Hb y Hin) as [H|H]; [|congruence]. unfold mem in H. destruct (index_of y (p_locals p)); [discriminate|discriminate]. }
+  destruct (mem x (p_locals p)) eqn:Hx.
+  - apply map_ext_in. intros n Hin. unfold resolve.
     destruct (index_of n (p_locals p)) eqn:E; [reflexivity|]. pose proof (index_none_neq _ _ _ E Hx) as Hnx.
+    assert (Hn : n <> y) by (intros ->; exact (Hyloc y Hin eq_refl E)).
     now rewrite (index_of_subst_id x y n g Hyg Hn Hnx).
-  - cbn [p_uses p_locals]. unfold subst at 3. rewrite map_map. apply map_ext_in. intros n Hin.
-    pose proof (mem_false_not_in _ _ Hyu n Hin) as Hn. unfold resolve. cbn [p_locals]. fold (sigma x y n).
-    assert (Hl : index_of (sigma x y n) (p_locals p) = index_of n (p_locals p)).
-    { unfold sigma. destruct (Nat.eqb n x) eqn:E; [|reflexivity]. apply Nat.eqb_eq in E. subst n.
-      unfold mem in Hx, Hyl. destruct (index_of x (p_locals p)); [discriminate|]. destruct (index_of y (p_locals p)); [discriminate|reflexivity]. }
-    rewrite Hl. destruct (index_of n (p_locals p)); [reflexivity|]. now rewrite (index_of_subst x y n g Hyg Hn).
+  - cbn [p_uses p_locals]. destruct (mem x (p_uses p)) eqn:Hxu.
+    + (* x is used as a global here: no local y, hence no use spelled y *)
+      unfold uses_global in Hc. rewrite Hxu, Hx in Hc. cbn in Hc.
+      assert (Hyu : forall n, In n (p_uses p) -> n <> y).
+      { intros n Hin ->. apply (Hyloc y Hin eq_refl). unfold mem in Hc. destruct (index_of y (p_locals p)); [discriminate|reflexivity]. }
+      unfold subst at 3. rewrite map_map. apply map_ext_in. intros n Hin. pose proof (Hyu n Hin) as Hn.
+      unfold resolve. cbn [p_locals]. fold (sigma x y n).
+      assert (Hl : index_of (sigma x y n) (p_locals p) = index_of n (p_locals p)).
+      { unfold sigma. destruct (Nat.eqb n x) eqn:E; [|reflexivity]. apply Nat.eqb_eq in E. subst n.
+        unfold mem in Hx, Hc. destruct (index_of x (p_locals p)); [discriminate|]. destruct (index_of y (p_locals p)); [discriminate|reflexivity]. }
+      rewrite Hl. destruct (index_of n (p_locals p)); [reflexivity|]. now rewrite (index_of_subst x y n g Hyg Hn).
+    + (* x does not occur in the body: nothing is rewritten *)
+      rewrite (subst_id x y (p_uses p) Hxu). apply map_ext_in. intros n Hin. unfold resolve. cbn [p_locals].
+      destruct (index_of n (p_locals p)) eqn:E; [reflexivity|].
+      assert (Hn : n <> y) by (intros ->; exact (Hyloc y Hin eq_refl E)).
+      assert (Hnx : n <> x) by (exact (mem_false_not_in _ _ Hxu n Hin)).
+      now rewrite (index_of_subst_id x y n g Hyg Hn Hnx).
 Qed.
 
 Lemma map_nth_map {A B} (f : A -> A) (h : A -> B) (l : list A) i :
@@ -69,21 +103,24 @@ Proof.
   - f_equal. apply IH. exact H.
 Qed.
 
-(* the theorem: whatever the full check accepts leaves every use bound to the same declaration *)
-Lemma rename_preserves_binding_l P t y P' : rename {| r_full := true |} P t y = Some P' -> bindings P' = bindings P.
+(* the theorem: in an error-free project, whatever the full check accepts leaves every use bound to the same declaration *)
+Lemma rename_preserves_binding_l P t y P' : no_unbound P -> rename {| r_full := true |} P t y = Some P' -> bindings P' = bindings P.
 Proof.
-  unfold rename. destruct (conflict {| r_full := true |} P t y) eqn:C; [discriminate|]. intros H; inversion H; subst; clear H.
+  intros NU. unfold rename. destruct (conflict {| r_full := true |} P t y) eqn:C; [discriminate|]. intros H; inversion H; subst; clear H.
   destruct t as [i x|x]; cbn in C; unfold bindings; cbn [apply_rename g_decls g_pous].
   - destruct (nth_error (g_pous P) i) as [p|] eqn:E; [|discriminate].
-    apply orb_false_iff in C. destruct C as [C1 C2]. apply orb_false_iff in C2. destruct C2 as [C2 C3].
+    apply orb_false_iff in C. destruct C as [C1 C2].
     apply map_nth_map. intros a Ha. rewrite E in Ha. inversion Ha; subst a.
-    destruct (mem x (p_locals p)) eqn:Hx; [|reflexivity]. cbn [p_uses]. now apply local_rename_pou.
+    destruct (mem x (p_locals p)) eqn:Hx; [|reflexivity]. cbn [p_uses]. apply local_rename_pou; auto.
+    (* y is neither local nor project-level, so no use can be spelled y *)
+    destruct (mem y (p_uses p)) eqn:Hu; [|reflexivity]. exfalso.
+    destruct (NU p y (nth_error_In _ _ E) (mem_in _ _ Hu)) as [H|H]; congruence.
   - apply orb_false_iff in C. destruct C as [C1 C2]. cbn in C2.
     rewrite map_map. apply map_ext_in. intros p Hin.
-    assert (Hp : mem y (p_locals p) || mem y (p_uses p) = false).
-    { destruct (mem y (p_locals p) || mem y (p_uses p)) eqn:E; [|reflexivity].
-      assert (existsb (fun p => mem y (p_locals p) || mem y (p_uses p)) (g_pous P) = true) by (apply existsb_exists; exists p; auto). congruence. }
-    apply orb_false_iff in Hp. destruct Hp as [H1 H2]. now apply global_rename_pou.
+    apply global_rename_pou; [exact C1| |].
+    + destruct (uses_global p x && mem y (p_locals p)) eqn:Ep; [|reflexivity].
+      assert (existsb (fun p => uses_global p x && mem y (p_locals p)) (g_pous P) = true) by (apply existsb_exists; exists p; auto). congruence.
+    + intros n Hn. exact (NU p n Hin Hn).
 Qed.
 
 (* the declaring-scope-only check accepts a capturing rename: local y -> H where H is a function called in the body *)
